@@ -146,6 +146,15 @@ class Worker(object):
             if self.laststmt.get(key) == stmt:
                 return self.ltrace          # a further line of the same statement
             self.laststmt[key] = stmt
+            if label == 'X1078':
+                # about to set the expired flag: was the instance expired (and so purged) already?
+                try:
+                    inst = frame.f_locals.get('self')
+                    if inst is not None and inst.sqlmeta.expired:
+                        self.run.stale_expires.append([self.tid, int(inst.id)])
+                    inst = None
+                except Exception:
+                    pass
             self.pc = label
             self.status = 'paused'
             self.handback()
@@ -204,6 +213,8 @@ class Worker(object):
                 t, j = op[1]
                 r = run.workers[t].results[j]
                 if r is not None and r[0] == 'obj':
+                    if r[1].sqlmeta.expired and [self.tid, int(r[1].id)] not in run.stale_ops:
+                        run.stale_ops.append([self.tid, int(r[1].id)])
                     r[1].expire()
                 r = None
             elif kind == 'xall':
@@ -237,6 +248,8 @@ class Run(object):
         self.pause_by_file = env['pause_by_file']
         self.fnames = env['fnames']
         self.locks = []
+        self.stale_expires = []    # [thread, row]: expire() ran on an instance that was expired already
+        self.stale_ops = []
         self.aborting = False
         self.harness_error = None
         self.back = _th.Semaphore(0)
@@ -488,6 +501,7 @@ class Run(object):
                'results': results, 'strong': strong, 'weak': weak, 'reach': reach, 'final': final,
                'unfinished': unfinished if self.verdict != 'ok' else [], 'blocked': blocked if self.verdict != 'ok' else [],
                'wlocks_held': wlocks, 'npre': getattr(self, 'npre', 0),
+               'stale_expires': self.stale_expires + [x for x in self.stale_ops if x not in self.stale_expires],
                'segs': getattr(self, 'segs', [])}
         if self.harness_error:
             obs['harness_error'] = self.harness_error
